@@ -80,8 +80,15 @@ def gen_pairs(rng, n):
             what = (f'Gradient {j}', g1, g2)
         elif kind == 'depth':
             base['Maximum Temperature'] = rng.choice([150, 250, 400])
-            base['Gradient 1'] = rng.choice([30, 50, 80])
-            d1, d2 = sorted(rng.sample([0.6, 1.5, 2.5, 3.5, 5, 7.5, 12], 2))
+            seg = rng.choice([1, 2, 3, 4])
+            base['Number of Segments'] = seg
+            for j in range(1, seg + 1):
+                base[f'Gradient {j}'] = rng.choice([30, 40, 50, 80])
+                if j < seg:
+                    base[f'Thickness {j}'] = rng.choice([0.5, 1, 2])
+            # depths straddling the layer interfaces as well as far from them
+            marks = [0.6, 0.99, 1.01, 1.49, 1.51, 2.49, 2.51, 2.99, 3.01, 3.49, 3.51, 4.01, 5, 7.5, 12]
+            d1, d2 = sorted(rng.sample(marks, 2))
             a, b = dict(base), dict(base)
             a['Reservoir Depth'], b['Reservoir Depth'] = d1, d2
             what = ('Reservoir Depth', d1, d2)
@@ -93,8 +100,10 @@ def gen_pairs(rng, n):
             what = ('Drawdown Parameter', p1, p2)
         elif kind == 'flow':
             base['Ramey Production Wellbore Model'] = 1
-            base['Reservoir Depth'] = rng.choice([2, 3, 5])
-            q1, q2 = sorted(rng.sample([5, 20, 40, 70, 110, 200], 2))
+            base['Reservoir Depth'] = rng.choice([2, 3, 4.5, 6])
+            base['Gradient 1'] = rng.choice([40, 50])
+            base['Injection Temperature'] = rng.choice([50, 70, 90])
+            q1, q2 = sorted(rng.sample([1, 1.5, 1.9, 2, 3, 5, 20, 40, 70, 110, 200], 2))
             a, b = dict(base), dict(base)
             a['Production Flow Rate per Well'], b['Production Flow Rate per Well'] = q1, q2
             what = ('Production Flow Rate per Well', q1, q2)
@@ -252,6 +261,9 @@ def run(chk: core.Check) -> int:
         evaluate(chk, [('cost', tuple(k['replay']['varied']), k['replay']['base'], k['replay']['partner']) for k in kn])
     evaluate(chk, gen_pairs(chk.rng, 270 if quick else 5000))
     ramey_direct(chk, 200 if quick else 3000)
+    # the corollaries are about the C05 layer-walk model: re-tie it here (reduced C05 correspondence)
+    from . import c05
+    c05.evaluate(chk, c05.gen_cases(chk.rng, 120 if quick else 600))
     if (not clean or chk.breaks) and not chk.failures:
         evaluate(chk, gen_pairs(chk.rng, 900))
     chk.assumptions += ['the models the corollaries are about are tied to the code by the C01/C03/C04/C05 checks',
